@@ -74,6 +74,9 @@ def run(rep, ctx):
         SR.index_spaces(rep, M, "R12.3")
     with rep.guard("R12.4"):
         r12_4(rep, M, "R12.4")
+        from .. import symrules as _SRg
+        _SRg.ground_state_consistency_raises(rep, M, "R12.4")
+        _SRg.lazy_init_polarity(rep, M, "R12.4", ["get_wyckoff_letters_original"])
         SR.letter_spaces(rep, M, "R12.4")
     rep.rule("R12.5", "every memoised result of the analyzer is dropped by reset(), which set_system() calls (no answers for a previous structure)")
     with rep.guard("R12.5"):
